@@ -209,6 +209,16 @@ func init() {
 				"LGPL-2.1++", "Apache-2.0-or-later", "Apache-2.0-or-later+", "eCos-2.0", "AGPL-1.0"} {
 				valid(lic+" WITH "+e, true, "an exception id is rejected after WITH behind the licence spelling "+lic)
 			}
+			// … and behind EVERY deprecated id, with and without '+' (deprecated ids that bundle an exception are expanded or
+			// special-cased by some implementations)
+			for di, d := range tblDeprecated {
+				if !thorough() && (di+len(e))%3 != 0 {
+					continue
+				}
+				d = strings.TrimSuffix(d, "+")
+				valid(d+" WITH "+e, true, "an exception id is rejected after WITH behind the deprecated id "+d)
+				valid(d+"+ WITH "+e, true, "an exception id is rejected after WITH behind the deprecated id "+d+" with '+'")
+			}
 			el := caseMut(e, 0)
 			for _, ctx := range []string{"(MIT WITH %s)", "ISC OR MIT WITH %s", "MIT WITH %s AND ISC", "(ISC AND (MIT+ WITH %s)) OR Zlib", "MIT  WITH  %s"} {
 				valid(fmt.Sprintf(ctx, e), true, "an exception id is rejected after WITH in the context "+ctx)
@@ -1189,6 +1199,17 @@ func families() []family {
 			}
 			return e, someIDs
 		}, scale(128, 512), 0},
+		{"alternating-left-nest", func(n int) (string, []string) {
+			e := id(0)
+			for i := 1; i <= n; i++ {
+				op := " AND "
+				if i%2 == 1 {
+					op = " OR "
+				}
+				e = "(" + e + op + id(i) + ")"
+			}
+			return e, someIDs
+		}, scale(64, 256), 0},
 		{"or-left-nested", func(n int) (string, []string) {
 			e := id(0)
 			for i := 1; i <= n; i++ {
